@@ -425,7 +425,7 @@ def conditions(tier, rng):
                           bounds="start/end symbolic in [0,n+2] or None (incl. 0 and beyond the dataset)"))
         for which, cf, ct in (("subset", False, False), ("percent", False, False), ("percent", True, False), ("percent", False, True), ("percent", True, True)):
             conds.append(Cond(name=f"percent-range[{which};n={n};ceil={int(cf)}{int(ct)}]", harness=H, body="body_subset_percent", cfg=(n, which, cf, ct),
-                              params=[("kp", "int"), ("kq", "int")], pre=[f"0 <= kp <= {GRID}", f"0 <= kq <= {GRID}"] + (["kp % 2 == 0", "kq % 2 == 0"] if q else []) + ([] if which == "subset" else ["kp <= kq"]),
+                              params=[("kp", "int"), ("kq", "int")], pre=[f"0 <= kp <= {GRID}", f"0 <= kq <= {GRID}"] + (["kp % 2 == 0", "kq % 2 == 0"] if (q or n > 2) else []) + ([] if which == "subset" else ["kp <= kq"]),
                               timeout=to, group="percent-ranges", cost=60,
                               bounds="percents k/24 with k symbolic (0, 1, every boundary j/n and points between), realised before the call"))
         conds.append(Cond(name=f"repeat[n={n}]", harness=H, body="body_repeat", cfg=n, params=[("r", "int"), ("use_min", "bool")],
@@ -434,7 +434,7 @@ def conditions(tier, rng):
     prefixes = []
     for L in Ls:
         allp = list(itertools.product(range(3), repeat=L - 1))
-        prefixes += allp if (not q or len(allp) <= 3) else rng.sample(allp, 4)
+        prefixes += allp if len(allp) <= 3 else rng.sample(allp, 4 if q else 8)
     lp, lpre = [("l", "int")], ["0 <= l < 3"]
     # longer layouts for the two seeded shuffles (a 5-element shuffle under the global RNG differs
     # between global states with overwhelming probability, a 2-element one often does not)
